@@ -478,6 +478,8 @@ def key_C08(c, msg=""):
         return "duplicate-xml-id-in-output"
     if reserved_prefix(c):
         return "reserved-ns-prefix-on-root"
+    if c.get("kind") == "pi" and pi_visible(c):
+        return "processing-instruction-below-root"
     if two_prefixes(c):
         return "two-prefixes-one-uri-on-left-root"
     if c["cfg"]["replace"] and c["cfg"]["tt"]:
@@ -798,6 +800,21 @@ def gen_struct(rng, n):
     return out
 
 
+def gen_perms():
+    """every reordering of three and of four siblings (distinct tags; same tag told apart by text), no text tags: several
+    moves inside ONE parent, each leaving a diff:delete original behind that later positions must not count"""
+    import itertools
+    out = []
+    for kids in (["<a>1</a>", "<b>2</b>", "<c>3</c>"], ["<a>1</a>", "<b>2</b>", "<c>3</c>", "<d>4</d>"],
+                 ["<s>one</s>", "<s>two</s>", "<s>three</s>", "<s>four</s>"]):
+        for perm in itertools.permutations(range(len(kids))):
+            if list(perm) == list(range(len(kids))):
+                continue
+            out.append({"kind": "struct", "left": "<r>%s</r>" % "".join(kids), "right": "<r>%s</r>" % "".join(kids[i] for i in perm),
+                        "cfg": {"normalize": WS_NONE, "replace": False, "tt": [], "fmt": []}, "opts": {}, "late": False})
+    return out
+
+
 def gen_subattrs(rng, n):
     """several attribute changes of ONE kind on one element, with names (and name:value entries) that contain one another:
     the diff:add-attr / delete-attr / update-attr / rename-attr annotations list every one of them"""
@@ -1014,6 +1031,46 @@ def gen_twopfx():
              "opts": {}, "late": False} for l, r in TWOPFX_STREAM]
 
 
+PI_STREAM = [
+    # (left, right, text tags, formatting tags): processing instructions INSIDE text tags are replaced by placeholders before
+    # the differ sees them -- the formatter must complete; outside text tags the differ itself raises (open finding)
+    ('<doc><p>a<?pi x?>b</p></doc>', '<doc><p>a<?pi x?>c</p></doc>', ["p"], []),
+    ('<doc><p>a<?pi x?>b<b>t</b></p></doc>', '<doc><p>a c<b>t</b><?pi y?></p></doc>', ["p"], ["b"]),
+    ('<doc><p><?first?>a <b>big<?in b?></b> deal</p><p>x</p></doc>', '<doc><p><?first?>a <b>big<?in b?></b> thing</p><p>x<?new?></p></doc>', ["p"], ["b"]),
+    ('<doc><p>a<?pi x?>b</p></doc>', '<doc><p>a<?pi x?>c</p></doc>', [], []),
+    ('<doc><?page break?><p>a</p></doc>', '<doc><?page break?><p>b</p></doc>', ["p"], []),
+]
+
+
+def pi_visible(c):
+    """some processing instruction of the two documents is not inside a text tag (so the differ meets it)"""
+    tt = set(c["cfg"]["tt"])
+    for s_ in (c["left"], c["right"]):
+        root = etree.fromstring(s_)
+        for n in root.iter():
+            if n.tag is etree.ProcessingInstruction:
+                if not any(isinstance(a.tag, str) and a.tag in tt for a in n.iterancestors()):
+                    return True
+    return False
+
+
+def gen_pi():
+    return [{"kind": "pi", "left": l, "right": r, "cfg": {"normalize": WS_NONE, "replace": False, "tt": tt, "fmt": fmt},
+             "opts": {}, "late": False} for l, r, tt, fmt in PI_STREAM]
+
+
+def run_pi(c):
+    """documents with processing instructions are outside the model: the public entry point only"""
+    from xmldiff import main as xm
+    try:
+        c["out_str"] = xm.diff_trees(etree.fromstring(c["left"]), etree.fromstring(c["right"]), formatter=make_formatter(c["cfg"]))
+        c["ph_left"] = []
+    except Exception as ex:  # noqa
+        c["exc"] = type(ex).__name__
+        c["exc_msg"] = str(ex)[:200]
+    return c
+
+
 def gen_reserved():
     """documents whose root binds lxml's own prefix ns<k>: open finding 'reserved-ns-prefix-on-root'; outside the model
     (which assumes that the only namespace declarations are the root's and the formatter's)"""
@@ -1187,6 +1244,7 @@ def gen_inputs(run, rng):
     cases += gen_struct(rng, 500 if quick else 5000)
     cases += gen_texttags(rng, 500 if quick else 5000)
     cases += gen_subattrs(rng, 60 if quick else 600)
+    cases += gen_perms()
     cases += gen_wsonly(rng, 40 if quick else 300)
     cases += gen_latectr(rng, 80 if quick else 800)
     cases += gen_sibshift(rng, 40 if quick else 300)
@@ -1333,7 +1391,8 @@ def main(run, focus):
     cases, nexh = gen_inputs(run, rng)
     for c in cases:
         run_impl(c)
-    run.log("implementation evaluated on %d inputs" % len(cases))
+    pis = [run_pi(c) for c in gen_pi()] if focus == "C08" else []
+    run.log("implementation evaluated on %d inputs" % (len(cases) + len(pis)))
     orc = ORACLES[focus]
     viols, judged = [], 0
     for c in cases:
@@ -1341,6 +1400,13 @@ def main(run, focus):
             continue
         if focus != "C08" and diffns_in_input(c):
             continue        # C09 / C10 speak of unmarked input documents (marked inputs: C08 finding diff-namespace-in-input)
+        judged += 1
+        why, key = orc(c)
+        if why:
+            rp = describe(c)
+            rp["finding_key"] = key
+            viols.append({"what": why, "replay": rp})
+    for c in pis:
         judged += 1
         why, key = orc(c)
         if why:
@@ -1572,6 +1638,12 @@ def replay(run, path, focus):
     c = {k: d[k] for k in ("kind", "left", "right", "cfg", "opts", "late", "mutate") if k in d}
     c.setdefault("cfg", {"normalize": WS_NONE, "replace": False, "tt": [], "fmt": []})
     c.setdefault("kind", "replay"); c.setdefault("late", False)
+    if c["kind"] == "pi":
+        run_pi(c)
+        why = ORACLES[focus](c)[0]
+        print("impl:", c.get("exc") or c.get("out_str"))
+        print("->", why or "property holds on this input")
+        return 1 if why else 0
     run_impl(c)
     print("script:", [repr(a) for a in c.get("script", [])])
     print("impl:", c.get("exc") or c.get("out_str"))
